@@ -117,7 +117,8 @@ if __name__ == "__main__":
     sub = sys.argv[2] if len(sys.argv) > 2 else ""
     muts = [m for m in gen() if sub in m['file']]
     random.Random(20261002).shuffle(muts)
-    muts = muts[:maxn]
+    off = int(os.environ.get("MUT_OFFSET", "0"))
+    muts = muts[off:off + maxn]
     print(len(muts), "mutants selected", flush=True)
     slots = 4
     for w in range(0, len(muts), slots):
